@@ -362,12 +362,42 @@ var (
 	c13NoRun = Ls(I(3))
 )
 
-func c13Convert(b []byte) (out V, tree []c13UF) {
+// a well-formed unknown-fields sequence of exactly n bytes (BYTE fields of 4 bytes, I16 fields of 5), or
+// nil when n is not of the form 4a+5b
+func c13Decoy(n int) []byte {
+	for b5 := 0; b5 <= 3 && 5*b5 <= n; b5++ {
+		if (n-5*b5)%4 == 0 {
+			var o []byte
+			for i := 0; i < (n-5*b5)/4; i++ {
+				o = append(o, 3, 0x7f, byte(i), 0x5a)
+			}
+			for i := 0; i < b5; i++ {
+				o = append(o, 6, 0x7e, byte(i), 0x5a, 0x5a)
+			}
+			return o
+		}
+	}
+	return nil
+}
+
+func c13Convert(b0 []byte) (out V, tree []c13UF) {
 	defer func() {
 		if r := recover(); r != nil {
 			out, tree = c13Panic, nil
 		}
 	}()
+	// the bytes arrive in a REUSED buffer: the same backing array held, and had converted, another
+	// message of the same length just before (receive buffers are pooled)
+	b := b0
+	if d := c13Decoy(len(b0)); d != nil {
+		b = make([]byte, len(b0))
+		copy(b, d)
+		func() {
+			defer func() { recover() }()
+			unknownfields.ConvertUnknownFields(b)
+		}()
+		copy(b, b0)
+	}
 	fs, err := unknownfields.ConvertUnknownFields(b)
 	if err != nil {
 		return c13Err, nil
